@@ -67,10 +67,39 @@ def rel_norm(t, pol):
     return (op, l, r)
 
 
+def _intlike(t):
+    return (t[0] == "len") or (t[0] == "bin" and t[1] in ("&", "|", "^", "%", "<<", ">>", "-", "*")) or \
+        (t[0] == "c" and isinstance(t[1], int) and not isinstance(t[1], bool))
+
+
 def truth_norm(t, pol):
-    """(term, polarity) with leading nots folded."""
-    while t[0] == "un" and t[1] == "not":
-        t, pol = t[2], not pol
+    """(term, polarity) with leading nots folded and integer tests against zero reduced to
+    truthiness: `x != 0`, `x > 0` (for bit masks / lengths), `bool(x)` are the truth of x;
+    `x == 0` its negation; `len(x) > 0` / `len(x) != 0` the truth of len(x)."""
+    while True:
+        if t[0] == "un" and t[1] == "not":
+            t, pol = t[2], not pol
+            continue
+        if t[0] == "call" and t[1] == "ext:bool" and len(t[2]) == 1:
+            t = t[2][0]
+            continue
+        if t[0] == "cmp" and t[3] == C(0) and _intlike(t[2]):
+            if t[1] == "!=":
+                t = t[2]
+                continue
+            if t[1] == "==":
+                t, pol = t[2], not pol
+                continue
+            if t[1] == ">" and (t[2][0] == "len" or (t[2][0] == "bin" and t[2][1] in ("&", "%"))):
+                t = t[2]
+                continue
+            if t[1] == "<=" and (t[2][0] == "len" or (t[2][0] == "bin" and t[2][1] in ("&", "%"))):
+                t, pol = t[2], not pol
+                continue
+        if t[0] == "cmp" and t[1] == ">=" and t[3] == C(1) and (t[2][0] == "len" or (t[2][0] == "bin" and t[2][1] in ("&", "%"))):
+            t = t[2]
+            continue
+        break
     return t, pol
 
 
